@@ -46,6 +46,11 @@ def main():
     t0 = time.time()
     try:
         rc = mod.run(a.tier, seed, t0)
+    except BaseException:
+        # a crash of the harness itself is neither "held" (0) nor "violation" (1)
+        import traceback
+        traceback.print_exc()
+        rc = 2
     finally:
         kernel.cleanup_scratch()
     sys.exit(rc)
